@@ -46,10 +46,11 @@ Definition ekind_same (a b : ekind) : bool :=
   | EType x, EType y => pytype_eqb x y
   | EValue x, EValue y | EMin x, EMin y | EMax x, EMax y => value_same x y
   | ELen x, ELen y | EMinLen x, EMinLen y | EMaxLen x, EMaxLen y => intv_same x y
-  | EAlphabet x, EAlphabet y | ESubstr x, ESubstr y | ERegex x, ERegex y => str_eqb x y
+  | EAlphabet x, EAlphabet y | ESubstr x, ESubstr y => str_eqb x y
+  | ERegex x, ERegex y => str_eqb (fst x) (fst y)
   | EMissingElement x, EMissingElement y | EExtraElement x, EExtraElement y => Z.eqb x y
   | EMissingKey x, EMissingKey y | EExtraKey x, EExtraKey y => key_eqb x y
-  | EMismatch, EMismatch => true
+  | EMismatch x, EMismatch y => Nat.eqb (length x) (length y)
   | EUuidVersion x, EUuidVersion y => option_eqb N.eqb x y
   | _, _ => false end.
 
